@@ -26,15 +26,23 @@ from harness.lib import tlvdesc as D
 from harness.lib import tlvgen as TG
 from harness.lib import vtloop
 from harness.lib.model import is_err, exc_code
+from harness.props import _pipeline as P      # Nack reason forms (value + encoding) shared with C03 / C19
 
 RULE = ('codec: random keyword sets over all 16 ControlParameters fields (values from the C08 generators), module/'
         'command pairs, local/non-local faces, timestamps/nonces incl. 0 and 2^64-1; responses: random legal '
         'ControlResponses (body present/absent/partly filled), single-edit mutants, wrong outer type, truncations, '
         'None. protocol: histories of 10..80 events over {call register/unregister, reply to the i-th outstanding '
         'command (Data with status from every class 0/1xx/200/201..599/2^32, text, body or none; damaged, empty and '
-        'missing Content; bad signature; Nack; silence), 1 ms tick, junk packet, route, connect, disconnect}, 1..8 '
+        'missing Content; bad signature; Nack with a reason drawn from every value / encoding a forwarder may send; silence), '
+        '1 ms tick, junk packet, route, connect, disconnect}, 1..8 '
         'concurrent calls, 0..3 routes declared before connecting, 1..3 connections, scripted clocks (frozen, +1 per '
-        'reading, random 0/1 steps, jumps, repeated readings). non-trivial = at least two commands or a non-200 '
+        'reading, random 0/1 steps, jumps, repeated readings). Nack-reason family: the reason of a Nack reply is a value AND an '
+        'encoding - NackReason 0, a Nack header without NackReason (= reason None), 1, the named 50/100/150 and their '
+        'neighbours 49/51/99/101/149/151, width boundaries 255/256/65535/65536/2^32-1/2^32/2^64-1, non-shortest 2/4/8-byte '
+        'encodings; half of the random Nack replies carry a reason other than the three named ones; plus a table reason form '
+        'x front-end x {register, unregister after a successful register, first of two routes declared before connecting '
+        '(the starting task must go on and after_start must run), first and last of three concurrent calls}: the call '
+        'returns False without raising and the following commands go out. non-trivial = at least two commands or a non-200 '
         'reply; distinct by hash of (front-end, clock, events)')
 ASSUMPTIONS = ['asyncio (Semaphore FIFO hand-over, sleep, wait_for, task scheduling) is represented by the event alphabet '
                'of Model/Registerer.v and exercised unmodified on the virtual-time loop',
@@ -336,6 +344,39 @@ def flat_uints(vals):
 # =================================================================================================
 # Part B — protocol
 # =================================================================================================
+def nack_reply(form):
+    """reply event for a Nack with the given reason form of harness/props/_pipeline.py (int | ('absent',) | ('wide', r, w))."""
+    if isinstance(form, (tuple, list)):
+        return [1, 0, 1] if form[0] == 'absent' else [1, form[1], form[2]]
+    return [1, form, 0]
+
+
+def nack_form(r):
+    if len(r) < 3:
+        return r[1] if len(r) == 2 else 150
+    return r[1] if r[2] == 0 else (('absent',) if r[2] == 1 else ('wide', r[1], r[2]))
+
+
+def model_reply(r):
+    """what the model / specification sees of a reply: for a Nack the reason VALUE (the encoding is below the decoded
+    level: RNack reason in Model/Registerer.v)."""
+    return [1, P.nack_reason_value(nack_form(r))] if r[0] == 1 else r
+
+
+def model_events(evs):
+    return [[1, e[1], model_reply(e[2])] if e[0] == 1 else e for e in evs]
+
+
+def nack_class(form):
+    v = P.nack_reason_value(form)
+    return 'nack' if v in (50, 100, 150) else ('nack-reason-none' if v == 0 else 'nack-reason-unassigned')
+
+
+# the named reasons' neighbours (unassigned codes next to assigned ones) on top of the shared forms
+C17_NACK_FORMS = P.NACK_FORMS + [49, 51, 99, 101, 149, 151]
+C17_NACK_POOL = P.NACK_POOL + [151, 49, 101]
+
+
 class Clock:
     def __init__(self, readings, step):
         self.r = list(readings)
@@ -428,6 +469,7 @@ class World:
         self.next_id = 0
         self.done = {}
         self.reply_of = {}
+        self.nack_of = {}          # call -> reason form of the Nack that answered its command
         self.outstanding = []      # dicts: call, wire, name, sent_at
         self.answered = []
         self.connected = False
@@ -631,7 +673,9 @@ class World:
         self.settle()
 
     def ev_reply(self, i, r):
-        """r: [0, [content]|[], sig_ok] | [1] | [2]"""
+        """r: [0, [content]|[], sig_ok] | [1, reason, enc] | [2]     (a bare [1] = [1, 150, 0], older replay files)
+        enc: 0 = NackReason in the shortest form (the library's own encoder), 1 = Nack header without a NackReason
+        element (reason must be 0), 2/4/8 = NackReason with a value of that many bytes"""
         from ndn.encoding import make_data, MetaInfo, Name, make_network_nack
         from ndn.security import DigestSha256Signer
         if i >= len(self.outstanding):
@@ -639,7 +683,9 @@ class World:
         info = self.outstanding.pop(i)
         self.answered.append(info)
         if info['call'] is not None:
-            self.reply_of[info['call']] = r
+            self.reply_of[info['call']] = model_reply(r)
+            if r[0] == 1:
+                self.nack_of[info['call']] = nack_form(r)
         if r[0] == 2:
             # exactly the lifetime of the command (no extra millisecond: sleepers of the timestamp loop
             # are woken by ticks only)
@@ -648,8 +694,7 @@ class World:
         if info['name'] is None:
             return
         if r[0] == 1:
-            wire = bytes(make_network_nack(info['wire'], 150))
-            self.feed(0x64, wire)
+            self.feed(0x64, P.nack_wire(info['wire'], nack_form(r)))
             return
         content = r[1][0] if r[1] else None
         d = bytearray(make_data(info['name'], MetaInfo(), content, signer=DigestSha256Signer()))
@@ -778,7 +823,8 @@ def rand_reply(ctx, prefix):
     rng = ctx.rng
     k = rng.random()
     if k < 0.08:
-        return [1], 'nack', None
+        form = rng.choice(C17_NACK_POOL)
+        return nack_reply(form), nack_class(form), None
     if k < 0.16:
         return [2], 'timeout', None
     if k < 0.20:
@@ -937,7 +983,7 @@ def gen_history(ctx, w):
 
 def reply_class(r):
     if r[0] == 1:
-        return 'nack'
+        return nack_class(r[1] if len(r) > 1 else 150)
     if r[0] == 2:
         return 'timeout'
     if not r[1]:
@@ -966,10 +1012,64 @@ def load_protocols(ctx):
         return None
 
 
+def ok_reply(prefix, code=200):
+    """a well-formed ControlResponse with the given status and a body naming the prefix, properly signed."""
+    from ndn.app_support import nfd_mgmt
+    cr = nfd_mgmt.ControlResponse()
+    cr.status_code = code
+    cr.status_text = 'OK'
+    cr.body = nfd_mgmt.ControlParametersValue()
+    cr.body.name = prefix
+    cr.body.face_id = 256
+    return [0, [G.tlv(0x65, bytes(cr.encode()))], True]
+
+
+def scripted(ctx, p, fe, evs, stratum):
+    """one fixed history (clock: +1 per reading, so the timestamp loops never sleep) on the implementation, then the
+    same evaluation as a generated one."""
+    case = {'frontend': fe, 'clock': [[5000], 1], 'local': True, 'events': evs}
+    try:
+        w = replay_history(ctx, case)
+    except Exception as e:   # noqa
+        import traceback
+        ctx.disagree('harness', f'the driver failed: {type(e).__name__}: {e}', case, None, traceback.format_exc()[-600:])
+        return
+    ctx.case(('scripted', fe, repr(evs)), True, None, f'v{fe}:{stratum}')
+    ctx.stat('commands', sum(1 for e in w.log if e[0] == 1))
+    evaluate_history(ctx, w, case, p)
+
+
+def nack_table(ctx, p):
+    """Nack-reason family: every reason value / encoding x front-end x where the nacked command comes from.  The call
+    whose command is nacked returns False (never raises), and what follows is unaffected: the next call's command goes
+    out, the starting task registers the remaining routes and after_start runs."""
+    from ndn.encoding import Component
+    c = lambda t: bytes(Component.from_str(t))      # noqa
+    A, B, C3, R1, R2 = [c('a'), c('u1')], [c('b')], [c('app'), c('c'), c('d')], [c('r'), c('one')], [c('r'), c('two')]
+    forms = C17_NACK_FORMS
+    for k, form in enumerate(forms):
+        nk = nack_reply(form)
+        nxt = nack_reply(forms[(k + 7) % len(forms)])
+        for fe in (1, 2):
+            # a direct register
+            scripted(ctx, p, fe, [[5], [0, 0, A], [1, 0, nk], [2]], 'nack-table.register')
+            # register (200), then unregister of the same prefix nacked, then a register that succeeds
+            scripted(ctx, p, fe, [[5], [0, 0, B], [1, 0, ok_reply(B)], [0, 1, B], [1, 0, nk], [0, 0, A], [1, 0, ok_reply(A)]],
+                     'nack-table.unregister')
+            # two routes declared before connecting: the registration of the first is nacked, the second answered 200,
+            # a call made afterwards is answered 200
+            scripted(ctx, p, fe, [[4, R1], [4, R2], [5], [1, 0, nk], [1, 0, ok_reply(R2)], [2], [0, 0, A], [1, 0, ok_reply(A)]],
+                     'nack-table.route')
+            # three concurrent calls: first and last nacked (two different reasons), the middle one 200
+            scripted(ctx, p, fe, [[5], [0, 0, A], [0, 1, B], [0, 0, C3], [1, 0, nk], [1, 0, ok_reply(B)], [1, 0, nxt], [2]],
+                     'nack-table.concurrent')
+
+
 def run_protocol(ctx):
     rng = ctx.rng
     M = ctx.call
     p = load_protocols(ctx)
+    nack_table(ctx, p)
     for it in range(ctx.n(600, 8000)):
         fe = 2 if rng.random() < 0.55 else 1
         cname, readings, step = rand_clock(rng)
@@ -1003,7 +1103,7 @@ def evaluate_history(ctx, w, case, p):
     fe, (readings, step), evs = case['frontend'], case['clock'], case['events']
     for site, cls, what in w.viol:
         ctx.violation(site, cls, what, case)
-    m = M([6, p[fe][0], p[fe][1], [readings, step], evs]) if p is not None else None
+    m = M([6, p[fe][0], p[fe][1], [readings, step], model_events(evs)]) if p is not None else None
     if m is not None and is_err(m):
         ctx.disagree('Registerer.run', 'model bad request', case, m, None)
         return
@@ -1090,6 +1190,8 @@ def canon_obs(o):
         r = o[2]
         if r[0] == 0:
             rr = (0, bytes(r[1][0]) if r[1] else None, bool(num(r[2])))
+        elif num(r[0]) == 1:
+            rr = (1, num(r[1]) if len(r) > 1 else 150)
         else:
             rr = (num(r[0]),)
         out = o[3]
@@ -1120,7 +1222,9 @@ def diagnose(ctx, w, nm, validates):
             want = s and (r[0] == 0 and (r[2] or not validates))
             site = w.site(kind_of.get(e[1]))
             if out[0] == 0:
-                return site, f'raises:{rc}', f'the call raised (error class {out[1]}) on reply {rc}'
+                form = w.nack_of.get(e[1])
+                return site, f'raises:{rc}', f'the call raised (error class {out[1]}) on reply {rc}' + \
+                    (f' (Nack reason {form!r})' if r[0] == 1 else '')
             if nm == 'success-iff-200' and bool(out[1]) != want:
                 return site, f'success-iff-200:{rc}', f'returned {bool(out[1])} on reply {rc}'
         return w.site(), nm, 'clause fails'
